@@ -172,6 +172,42 @@ ACCESSORS = [  # (lean name, python method, params, ptypes, ret, consts, doc)
     ("oppositeFaceInds", "opposite_face", ["self", "u", "v", "F", "return_inds"], [None, "Nat", "Nat", "Nat", None], "(Option Nat × Option Nat × Option Nat)", {"return_inds": True}),
     ("vertexToFaces", "vertex_to_faces", ["self", "V"], [None, "Nat"], "List (Option Nat)", None),
 ]
+ACC2_EXPRS = [
+    ("self.mesh.faces[M_f]", "(Mouette.Surface.faceOf S {f})", "List Nat"),
+    ("self.mesh.edges[M_e]", "S.edges[{e}]?", "(Nat × Nat)", True),
+    ("enumerate(M_l)", "({l}.zipIdx.map fun p => (p.2, p.1))", "List (Nat × Nat)"),
+    ("range(M_n)", "(List.range {n})", "List Nat"),
+    ("list(M_x)", "{x}", "List Nat"),
+    ("self.opposite_face(M_a, M_b, M_f)", "(Mouette.Surface.oppositeFace S {a} {b} {f})", "Option Nat"),
+    ("utils.keyify(M_a, M_b)", "(some (key2 {a} {b}))", "Option (Nat × Nat)"),
+    ("self._adjV2Cn.get(M_v, None)", "p0__adjV2Cn[{v}]?", "Option (List Nat)"),
+    ("self._adjV2V[M_v]", "p0__adjV2V[{v}]?", "List Nat", True),
+]
+ACC2 = [  # (lean name, qualified python name, params, ptypes, ret, raising, ctx extras)
+    ("inFaceIndex", "SurfaceMesh._Connectivity.in_face_index", ["self", "F", "V"], [None, "Nat", "Nat"], "Option Nat", False),
+    ("commonEdge", "SurfaceMesh._Connectivity.common_edge", ["self", "iF1", "iF2"], [None, "Nat", "Nat"], "Option (Nat × Nat)", False),
+    ("faceToVertices", "SurfaceMesh._Connectivity.face_to_vertices", ["self", "F"], [None, "Nat"], "List Nat", False),
+    ("edgeToVertices", "PolyLine._Connectivity.edge_to_vertices", ["self", "E"], [None, "Nat"], "(Nat × Nat)", True),
+    ("vertexToCorners", "SurfaceMesh._Connectivity.vertex_to_corners", ["self", "V"], [None, "Nat"], "Option (List Nat)", False),
+    ("vertexToVertices", "PolyLine._Connectivity.vertex_to_vertices", ["self", "V"], [None, "Nat"], "List Nat", True),
+]
+ACC2_GUARDS = ["if self._adjV2Cn is None:\n    self._compute_connectivity()", "if self._adjV2V is None:\n    self._compute_connectivity()"]
+ACC2_FUNCTIONS = [a[1] for a in ACC2]
+
+
+def acc2_defs():
+    ts, _ = T.load(SURF)
+    tl, _ = T.load(LIN)
+    out = []
+    for lean, py, params, ptypes, ret, raising in ACC2:
+        v = PL.Vocab(params, ptypes, exprs=ACC2_EXPRS, subs={"List": {"get": ("({x}.getD {k} 0)", "Nat", False)}}, drop=ACC2_GUARDS, ret=ret, raising=raising,
+                     ctx="(S : Surf) (p0__adjV2Cn p0__adjV2V : V2Cn)", ctxargs="S p0__adjV2Cn p0__adjV2V",
+                     init_env={"self._adjV2Cn": "V2Cn", "self._adjV2V": "V2Cn"},
+                     returns=[("(None, None)", "none")] if lean == "commonEdge" else [])
+        out.append(PL.compile_function(lean, T.find_def(ts if py.startswith("Surface") else tl, py), v, f"`{py.split('.', 1)[1]}`"))
+    return "\n".join(out)
+
+
 CC_FUNCTIONS = ["SurfaceMesh._Connectivity._compute_connectivity"] + sorted({"SurfaceMesh._Connectivity." + a[1] for a in ACCESSORS})
 
 
@@ -197,6 +233,79 @@ def cc_defs():
     return "\n".join(out)
 
 
+# ----------------------------------------------------------------------------------------------------------------------
+# _sort_vertex_neighborhoods
+# ----------------------------------------------------------------------------------------------------------------------
+def _opt_call(fn):
+    def tmpl(c, v, env):
+        return f"({v['c']}.bind (Mouette.Surface.{fn} S))" if PL.arg_of(v["T_c"], "Option") else f"(Mouette.Surface.{fn} S {v['c']})"
+    return tmpl
+
+
+def _sort_key(c, b, env, nxt, ind, exits):
+    """`<list>.sort(key=lambda x: e)` on an entry of `_adjV2Cn` / `_adjV2V`: a stable sort by the key (Python's sort is stable)"""
+    lam, tgt = b["M_f"], b["M_l"]
+    if not (isinstance(lam, ast.Lambda) and len(lam.args.args) == 1 and isinstance(tgt, ast.Subscript)): return None
+    pre = []
+    x, tx = c.E(tgt.value, env, pre); k, tk = c.E(tgt.slice, env, pre)
+    key = ast.unparse(tgt.value)
+    if pre or tx != "V2Cn" or key not in env: raise c.err("unsupported sort target")
+    a = lam.args.args[0].arg
+    env_b = dict(env); env_b[a] = "Nat"
+    e, te = c.E(lam.body, env_b, pre)
+    if pre or te not in ("Int", "Option Int"): raise c.err(f"unsupported sort key of type {te}")
+    le = "fun (a b : Int) => decide (a ≤ b)" if te == "Int" else "leOptInt"
+    return (f"{ind}let {c.lname(key)} : V2Cn := v2cnSet {x} {k} (sortByKey ({le}) (fun {a} => {e}) (v2cnGet {x} {k}))\n") + nxt(env)
+
+
+SORT_EXPRS = [
+    ("self.mesh.id_vertices", "(List.range S.nv)", "List Nat"),
+    ("dict([(M_c, 0) for M_c in M_l])", "({l}.map fun c => ((some c : Option Nat), (0 : Int)))", "IdxDict"),
+    ("dict()", "([] : VIdx)", "VIdx"),
+    ("len(M_d)", lambda c, v, env: (f"(idxLen {v['d']})" if v["T_d"] == "IdxDict" else f"{v['d']}.length"), "Nat"),
+    ("range(M_n)", "(List.range {n})", "List Nat"),
+    ("self.opposite_corner(M_c)", _opt_call("oppositeCorner"), "Option Nat"),
+    ("self.previous_corner(M_c)", _opt_call("previousCorner"), "Option Nat"),
+    ("self.next_corner(M_c)", _opt_call("nextCorner"), "Option Nat"),
+    ("self.half_edge_to_corner(M_a, M_b)", "(Mouette.Surface.halfEdgeToCorner S {a} {b})", "Option Nat"),
+    ("M_d.get(M_k, -float('inf'))", "(idxFind {d} {k})", "Option Int"),
+]
+SORT_SUBS = {
+    "V2Cn": {"get": ("(v2cnGet {x} {k})", "List Nat", False), "set": "v2cnSet {x} {k} {v}"},
+    "IdxDict": {"get": ("(idxGet {x} ({k} : Option Nat))", "Int", False), "set": "(({k} : Option Nat), {v}) :: {x}"},
+    "VIdx": {"get": ("(vidxGet {x} {k})", "Option Int", False), "set": "({k}, {v}) :: {x}"},
+    "List": {"get": ("({x}.getD {k} 0)", "Nat", False)},
+}
+
+
+def sort_defs():
+    ts, _ = T.load(SURF)
+    v = PL.Vocab(["self"], [None], exprs=SORT_EXPRS, subs=SORT_SUBS, stmts=[("M_l.sort(key=M_f)", _sort_key)],
+                 ctx="(S : Surf) (p0__adjV2Cn p0__adjV2V : V2Cn)", ctxargs="S p0__adjV2Cn p0__adjV2V",
+                 init_env={"self._adjV2Cn": "V2Cn", "self._adjV2V": "V2Cn"}, ret="(V2Cn × V2Cn)", fall="(p0__adjV2Cn, p0__adjV2V)")
+    return PL.compile_function("sortVertexNeighborhoods", T.find_def(ts, "SurfaceMesh._Connectivity._sort_vertex_neighborhoods"), v,
+                               "`_Connectivity._sort_vertex_neighborhoods`: (`_adjV2Cn`, `_adjV2V`) after the loop over the vertices")
+
+
+ACC2_HEADER = ("import Mouette.Model.SurfSource\nset_option linter.unusedVariables false\nnamespace Mouette.Generated.C01Acc\n"
+               "open Mouette.Surface Mouette.SurfSource\n\n")
+_T2 = "(S : Surf) (p0__adjV2Cn p0__adjV2V : V2Cn)"
+ACC2_FALLBACK = ("/- the translator refused the current source: stubs (the bridges of Props/C01Source do not hold for them) -/\n"
+                 f"def inFaceIndex {_T2} (p1 p2 : Nat) : Option Nat := some 0\n"
+                 f"def commonEdge {_T2} (p1 p2 : Nat) : Option (Nat × Nat) := some (0, 0)\n"
+                 f"def faceToVertices {_T2} (p1 : Nat) : List Nat := [0]\n"
+                 f"def edgeToVertices {_T2} (p1 : Nat) : Option (Nat × Nat) := some (0, 0)\n"
+                 f"def vertexToCorners {_T2} (p1 : Nat) : Option (List Nat) := some [0]\n"
+                 f"def vertexToVertices {_T2} (p1 : Nat) : Option (List Nat) := some [0]\n")
+SORT_HEADER = ("import Mouette.Model.SurfSource\nset_option linter.unusedVariables false\nnamespace Mouette.Generated.C01Sort\n"
+               "open Mouette.Surface Mouette.SurfSource\n\n")
+SORT_FALLBACK = """/- the translator refused the current source: stubs (the bridges of Props/C01Source do not hold for them) -/
+def sortVertexNeighborhoods_for2_step (S : Surf) (p0__adjV2Cn p0__adjV2V : V2Cn) (st : (Bool × IdxDict × Int × Bool × (Option Nat))) (x : Nat) :
+    (Bool × IdxDict × Int × Bool × (Option Nat)) := (true, [], 0, false, none)
+def sortVertexNeighborhoods_for3_step (S : Surf) (p0__adjV2Cn p0__adjV2V : V2Cn) (st : (Bool × IdxDict × Int × (Option Nat))) (x : Nat) :
+    (Bool × IdxDict × Int × (Option Nat)) := (true, [], 0, none)
+def sortVertexNeighborhoods (S : Surf) (p0__adjV2Cn p0__adjV2V : V2Cn) : (V2Cn × V2Cn) := ([], [])
+"""
 CC_HEADER = ("import Mouette.Model.SurfSource\nset_option linter.unusedVariables false\nnamespace Mouette.Generated.C01HE\n"
              "open Mouette.Surface Mouette.SurfSource\n\n")
 _ST = "(S : Surf) (p0__half_edges : HEDict) (p0__Cn2he : CnDict) (p0__adjVF2Cn : VFDict)"
@@ -290,4 +399,19 @@ def translate_sites():
                 "accessors reading these caches (previous/next/opposite_corner, corner_to_half_edge, half_edge_to_corner, vertex_to_corner_in_face, "
                 "direct_face and opposite_face with and without return_inds, vertex_to_faces)", site2)
     T.write_generated("C01HE", (st["cc"] if r2["ok"] else CC_FALLBACK) + "\nend Mouette.Generated.C01HE\n", CC_HEADER)
-    return [r, r2]
+
+    def site3():
+        st["sort"] = sort_defs()
+        return {"functions": ["SurfaceMesh._Connectivity._sort_vertex_neighborhoods"], "lean_defs": st["sort"].count("\ndef ") + st["sort"].startswith("def ")}
+    r3 = T.site("surface.py: body of _sort_vertex_neighborhoods (the backward walk opposite(previous(c)) with ranks 0,-1,.. and its break on "
+                "the border, the forward walk next(opposite(c)) with ranks 0,1,.., the two sorts by rank, the rank of a neighbour = rank of the corner "
+                "of its half-edge or -inf)", site3)
+    T.write_generated("C01Sort", (st["sort"] if r3["ok"] else SORT_FALLBACK) + "\nend Mouette.Generated.C01Sort\n", SORT_HEADER)
+
+    def site4():
+        st["acc2"] = acc2_defs()
+        return {"functions": ACC2_FUNCTIONS, "lean_defs": st["acc2"].count("\ndef ") + st["acc2"].startswith("def ")}
+    r4 = T.site("surface.py+linear.py: bodies of in_face_index and common_edge (search loops with `return`), face_to_vertices, edge_to_vertices, "
+                "vertex_to_corners, vertex_to_vertices (cache reads)", site4)
+    T.write_generated("C01Acc", (st["acc2"] if r4["ok"] else ACC2_FALLBACK) + "\nend Mouette.Generated.C01Acc\n", ACC2_HEADER)
+    return [r, r2, r3, r4]
